@@ -592,7 +592,11 @@ class Interp:
             if isinstance(a, bool) or isinstance(b, bool):
                 return a is b
             if isinstance(a, int) and isinstance(b, int):
-                return a == b      # small-int caching assumption (statuses 1..13, signals)
+                if a != b:
+                    return False
+                if -5 <= a <= 256:
+                    return True    # CPython caches the small ints: equal small ints are one object
+                return SBool(c.fresh('same_int_object', z3.BoolSort()))     # equal big ints: maybe, maybe not
             if a is None or b is None:
                 return a is b
             if isinstance(a, str) and isinstance(b, str):
@@ -605,7 +609,12 @@ class Interp:
                 return SBool(c.to_bool(a) == c.to_bool(b))
             if isinstance(a, (bool, SBool)) or isinstance(b, (bool, SBool)):
                 return False       # `x is True` with x an int
-            return SBool(c.to_int(a) == c.to_int(b))
+            # identity of int objects: implies equality; follows from equality only for the cached small ints
+            ea, eb = c.to_int(a), c.to_int(b)
+            ident = c.fresh('same_int_object', z3.BoolSort())
+            c.assume(z3.Implies(ident, ea == eb))
+            c.assume(z3.Implies(z3.And(ea == eb, ea >= -5, ea <= 256), ident))
+            return SBool(ident)
         return SBool(c.to_ref(a) == c.to_ref(b))
 
     def equal(self, a, b):
@@ -638,13 +647,34 @@ class Interp:
             return SBool(ra == rb)
         if pa in VALUE_EQ or pb in VALUE_EQ:
             return SBool(z3.Or(ra == rb, z3.And(ra != NONE, rb != NONE, sval(ra) == sval(rb))))
-        if pa in IDENTITY_EQ and pb in IDENTITY_EQ:
+        if pa in IDENTITY_EQ and pb in IDENTITY_EQ and not (pa is None and pb is None):
             return SBool(ra == rb)
         if pa == 'FabricEvent' or pb == 'FabricEvent':
             return SBool(c.hget(ra, 'priority') == c.hget(rb, 'priority'))
         if pa in ('deque', 'list') or pb in ('deque', 'list'):
             return SBool(B.val_eq(ra, rb))
-        return SBool(ra == rb)
+        if self.identity_eq_type(pa) and self.identity_eq_type(pb):
+            return SBool(ra == rb)
+        # tuples / namedtuples / dict subclasses (Event is an OrderedDict) compare by content: the same object is
+        # equal to itself, two distinct objects may or may not be equal (uninterpreted, so nothing is provable from it)
+        return SBool(z3.Or(ra == rb, z3.And(ra != NONE, rb != NONE, B.val_eq(ra, rb))))
+
+    def identity_eq_type(self, pt):
+        """Does == on this static type fall back to object identity (no __eq__ anywhere in its MRO)?"""
+        if pt in IDENTITY_EQ and pt is not None:
+            return True
+        if pt in self.src.classes:
+            for cn in self.src.mro(pt):
+                ci = self.src.classes.get(cn)
+                if ci is None:
+                    return False        # a base class outside miros (OrderedDict, dict, tuple, ...)
+                if '__eq__' in ci.methods:
+                    return False
+                for b in ci.bases:
+                    if b not in self.src.classes and b != 'object':
+                        return False
+            return True
+        return False
 
     def truth(self, v):
         if isinstance(v, bool):
